@@ -569,7 +569,8 @@ impl<W: Word, B: AsRef<[W]> + AsMut<[W]>> BitFieldSliceMut<W> for BitFieldVec<W,
         );
         // Reduce len to the elements available in both vectors
         let len = Ord::min(Ord::min(len, dst.len - to), self.len - from);
-        if len == 0 {
+        // zero-width elements occupy no bits: there is nothing to copy
+        if len == 0 || self.bit_width == 0 {
             return;
         }
         let bit_width = Ord::min(self.bit_width, dst.bit_width);
